@@ -210,6 +210,13 @@ def r2(ctx, prog, ev, rep):
                     lo_ok, hi_ok = relational.prove_range(iv, pc, term, tr)
                     if (res[0] >= tr[0] or lo_ok) and (res[1] <= tr[1] or hi_ok):
                         res = (max(res[0], tr[0]), min(res[1], tr[1]))
+                if not (res[0] >= tr[0] and res[1] <= tr[1]) and s["kind"] != "un":
+                    # a disjunctive guard (`a || b`): the range is the join of the ranges under each disjunct
+                    from vflib.intervals import split_cases
+                    cases = split_cases(pc)
+                    if len(cases) > 1:
+                        rs = [iv._iv(term, pcase, 0) for pcase in cases]
+                        res = (max(res[0], min(r_[0] for r_ in rs)), min(res[1], max(r_[1] for r_ in rs)))
                 if res[0] >= tr[0] and res[1] <= tr[1]:
                     rep.ok("C08-R2", key, T.loc(node), "%s in [%s, %s] fits %s" % (op, _f(res[0]), _f(res[1]), ty))
                 else:
@@ -241,6 +248,13 @@ def r2(ctx, prog, ev, rep):
                 if cls == "index":
                     n_index += 1
                     ok, why = prove_index(prog, ev, iv, p, term, pc, ctx)
+                    if not ok:
+                        from vflib.intervals import split_cases
+                        cases = split_cases(pc)
+                        if len(cases) > 1:
+                            sub = [prove_index(prog, ev, iv, p, term, pcase, ctx) for pcase in cases]
+                            if all(o for o, _ in sub):
+                                ok, why = True, "in each case of the disjunctive guard: " + sub[0][1]
                     if not ok and s.get("pc_incomplete"):
                         rep.unrecognised("C08-R2", key, T.loc(node), "no bound proof for this index, and the conditions of an early exit inside a "
                                          "nested block before it could not be carried along (they may be what bounds it): %s" % why)
